@@ -206,7 +206,7 @@ func (c *Check) writerLayout(f *Func) (prefixParam int, size int, fields []wfiel
 	prefixParam = -1
 	if pre.Op == "" && strings.HasPrefix(pre.At, "P") {
 		fmt.Sscanf(pre.At, "P%d", &prefixParam)
-	} else if bb, ok := pre.Match("(make []byte (len $P))"); ok && strings.HasPrefix(bb["$P"].At, "P") {
+	} else if bb, ok := matchAny(pre, "(make []byte (len $P))", "(make []byte (len $P) $CAP)"); ok && strings.HasPrefix(bb["$P"].At, "P") {
 		// copied prefix: require the copy
 		copied := false
 		for _, ev := range pa.Events {
@@ -224,6 +224,15 @@ func (c *Check) writerLayout(f *Func) (prefixParam int, size int, fields []wfiel
 	}
 	sort.Slice(fields, func(i, j int) bool { return fields[i].off < fields[j].off })
 	return prefixParam, size, fields, ""
+}
+
+func matchAny(t *Term, pats ...string) (Bind, bool) {
+	for _, p := range pats {
+		if b, ok := t.Match(p); ok {
+			return b, true
+		}
+	}
+	return nil, false
 }
 
 func paramIndexOf(t *Term) int {
